@@ -293,11 +293,12 @@ def _check_areas(problems: _Problems, areas: list, model: dict, items: list, len
         extents = {(pieces[i]["neighbouring_start"], pieces[i]["neighbouring_end"]) for i in members}
         feature = None
         labels = {_label_of(pieces[i]) for i in members if pieces[i]["product"]}
-        for item in remaining_items:
-            if (item["kind"] == piece["kind"] and labels <= {item["label"]}
-                    and extents & set(_extent_pieces(item, model, length))):
-                feature = item
-                break
+        possible = [item for item in remaining_items if item["kind"] == piece["kind"] and labels <= {item["label"]}]
+        for exact in (True, False):
+            for item in possible:
+                wanted = set(_extent_pieces(item, model, length))
+                if feature is None and (extents == wanted if exact else extents & wanted):
+                    feature = item
         problems.add(clause, {**context, "area": piece, "range": [low, high],
                               "feature": _describe(feature) if feature else None})
         if feature is None:
